@@ -1,12 +1,14 @@
 #!/usr/bin/env python3
 """Applies every kept property-breaking change (seeded/<ID><x>/patch.diff from the sub-agents, selfmut/*.diff
 of my own) to /repo, one at a time, runs the quick check of its property, reverts, and writes
-seeded/detection.json + seeded/DETECTION.md. /repo must be clean; nothing else may use /repo meanwhile.
+seeded/detection.json + seeded/DETECTION.md. Works on a scratch clone of /repo's HEAD under /var/tmp.
 
 usage: run_mutations.py [ID-prefix ...]"""
 import glob, json, os, re, subprocess, sys, time
 V = os.path.dirname(os.path.dirname(os.path.abspath(__file__)))
 only = sys.argv[1:]
+# the changes are applied to a scratch clone of /repo (removed at the end), so that /repo stays usable meanwhile
+R = "/var/tmp/mutrepo"
 
 
 def sh(cmd, **kw):
@@ -14,6 +16,7 @@ def sh(cmd, **kw):
 
 
 assert sh("git -C /repo status --short").stdout.strip() == "", "/repo is not clean"
+sh("rm -rf %s && git clone -q /repo %s" % (R, R))
 items = []
 for d in sorted(glob.glob(V + "/seeded/C*/")):
     name = os.path.basename(d.rstrip("/"))
@@ -26,21 +29,23 @@ res = json.load(open(outp)) if os.path.exists(outp) else {}
 for name, pid, patch, origin in items:
     if only and not any(name.startswith(o) for o in only):
         continue
+    if os.environ.get("RESUME") and name in res and res[name].get("applies") is not None:
+        continue
     t0 = time.time()
-    r = sh("git -C /repo apply --check " + patch)
+    r = sh("git -C %s apply --check %s" % (R, patch))
     if r.returncode != 0:
         res[name] = dict(property=pid, origin=origin, applies=False, note=r.stderr.strip()[:300])
         print(name, "DOES NOT APPLY")
         continue
-    sh("git -C /repo apply " + patch)
+    sh("git -C %s apply %s" % (R, patch))
     try:
-        r = sh("cd %s && ./check %s --no-evidence --tier quick" % (V, pid), timeout=3600)
+        r = sh("cd %s && VERIF_REPO=%s ./check %s --no-evidence --tier quick" % (V, R, pid), timeout=3600)
         out = r.stdout + r.stderr
     except subprocess.TimeoutExpired as e:
         out = "TIMEOUT"
         r = None
     finally:
-        sh("git -C /repo checkout -- .")
+        sh("git -C %s checkout -- ." % R)
     viol = sorted(set(re.findall(r"^  scenario=(\S+) kind=(\S+)", out, re.M)))
     mach = re.findall(r"^MACHINERY.*", out, re.M)
     res[name] = dict(property=pid, origin=origin, applies=True, exit=(r.returncode if r else None),
@@ -48,7 +53,7 @@ for name, pid, patch, origin in items:
                      n_violations=len(viol), machinery=mach[:3], wall_s=round(time.time() - t0))
     print(name, "exit", res[name]["exit"], "violations", len(viol), [v[0] + ":" + v[1] for v in viol[:3]], flush=True)
     json.dump(res, open(outp, "w"), indent=1, sort_keys=True)
-assert sh("git -C /repo status --short").stdout.strip() == ""
+sh("rm -rf " + R)
 # markdown table
 lines = ["| change | origin | check exit | caught by (scenario : kind, first few) |", "|---|---|---|---|"]
 for name in sorted(res):
